@@ -1,7 +1,10 @@
+// (The file name sorts first on purpose: these histories call runtime.GC, which is cheap only while the
+// process heap is still small - before the large enumerations have run.)
 package c11
 
 import (
 	"fmt"
+	"runtime"
 	"sort"
 	"strings"
 	"testing"
@@ -47,6 +50,16 @@ func runConn(h Conn) kit.Verdict {
 			play(k)
 		}
 	}
+	// A stream that was torn down mid-message may leave process-wide state behind in the code under
+	// test (pooled buffers). Two collections empty every sync.Pool, so that whatever this history
+	// provoked is seen by ITS later streams only and a replay of the case stands on its own.
+	for _, r := range runs {
+		if (r.bc != nil && r.bc.abort != "") || (r.bs != nil && r.bs.abort != "") {
+			runtime.GC()
+			runtime.GC()
+			break
+		}
+	}
 	var kinds []string
 	anyGRPC := false
 	for _, c := range h.Streams {
@@ -72,8 +85,20 @@ func connClasses(h Conn) []string {
 	set := map[string]bool{}
 	seenG, seenN := false, false
 	encs := map[string]bool{}
+	dirty := false // an earlier gRPC stream was torn down with a partial message buffered
 	for _, c := range h.Streams {
 		if isGRPC(c.CT) {
+			if dirty {
+				set["grpc-stream-after-stream-aborted-mid-message"] = true
+			}
+			for _, d := range []Dir{c.C, c.S} {
+				if b := build(d); b.abort != "" {
+					set["aborted-"+b.abort] = true
+					if b.tail > 0 {
+						dirty = true
+					}
+				}
+			}
 			if seenN {
 				set["grpc-after-non-grpc"] = true
 			}
@@ -118,7 +143,7 @@ func connClasses(h Conn) []string {
 
 func connNonTrivial(h Conn) bool {
 	for _, c := range connClasses(h) {
-		if c == "mixed" || c == "grpc-streams-with-different-encodings" {
+		if c == "mixed" || c == "grpc-streams-with-different-encodings" || c == "grpc-stream-after-stream-aborted-mid-message" {
 			return true
 		}
 	}
@@ -146,6 +171,37 @@ func genConn(t *rapid.T) Conn {
 				c.C.Plain, c.S.Plain = true, true
 			}
 		}
+		// every third stream or so is torn down in the middle: RST_STREAM in the direction of a
+		// partially sent message, or END_STREAM on a truncated one
+		if k < n-1 || rapid.Bool().Draw(t, "abort_last") {
+			for _, d := range []*Dir{&c.C, &c.S} {
+				if rapid.IntRange(0, 4).Draw(t, "abort") != 0 {
+					continue
+				}
+				probe := *d
+				probe.AbortAt = 0
+				b := build(probe)
+				if len(b.stream) < 2 {
+					continue
+				}
+				at := rapid.IntRange(1, len(b.stream)-1).Draw(t, "abort_at")
+				if len(b.offs) > 0 && rapid.Bool().Draw(t, "abort_in_prefix") {
+					o := b.offs[rapid.IntRange(0, len(b.offs)-1).Draw(t, "abort_msg")]
+					if a := o + rapid.IntRange(1, 4).Draw(t, "abort_rel"); a < len(b.stream) {
+						at = a
+					}
+				}
+				d.AbortAt = at
+				d.AbortHow = rapid.SampledFrom([]string{"rst", "rst", "end"}).Draw(t, "abort_how")
+				var cuts []int
+				for _, x := range d.Cuts {
+					if x < at {
+						cuts = append(cuts, x)
+					}
+				}
+				d.Cuts = cuts
+			}
+		}
 		h.Streams = append(h.Streams, c)
 	}
 	if rapid.Bool().Draw(t, "interleave") {
@@ -157,12 +213,12 @@ func genConn(t *rapid.T) Conn {
 	return h
 }
 
-const ruleStreams = "2..4 streams played through ONE AsStreamProcessorFactory result (fresh sinks and a fresh recording processor per stream, as the relay does per stream): each stream is a reframe case (see there) with content-type application/grpc(+proto) or a non-gRPC type; non-gRPC bodies are either plain bytes (JSON-like text, zeros, random) or bytes that look like gRPC framing incl. frames that end inside a 5-byte prefix; streams one after the other or interleaved frame by frame (drawn order). Every stream is judged on its own with the reframe oracle. Non-trivial = gRPC and non-gRPC streams share the factory, or gRPC streams with different encodings do."
+const ruleStreams = "2..4 streams played through ONE AsStreamProcessorFactory result (fresh sinks and a fresh recording processor per stream, as the relay does per stream): each stream is a reframe case (see there) with content-type application/grpc(+proto) or a non-gRPC type; non-gRPC bodies are either plain bytes (JSON-like text, zeros, random) or bytes that look like gRPC framing incl. frames that end inside a 5-byte prefix; streams one after the other or interleaved frame by frame (drawn order); about every third stream is torn down in the middle (RST_STREAM in the direction of a partially sent message - cut inside a prefix or a payload - or END_STREAM on a truncated message) and followed by ordinary streams. Every stream is judged on its own with the reframe oracle. Non-trivial = gRPC and non-gRPC streams share the factory, or gRPC streams with different encodings do, or a gRPC stream follows one that was aborted in the middle of a message."
 
 var propStreams = &kit.Prop[Conn]{
 	ID: "C11", Name: "streams-of-one-factory", Rule: ruleStreams,
 	Gen: genConn, Run: runConn, NonTrivial: connNonTrivial, Classes: connClasses,
-	Gates: map[string]float64{"non-grpc-after-grpc": 0.3, "grpc-after-non-grpc": 0.1, "interleaved-streams": 0.3, "plain-body": 0.15, "non-grpc-body-looks-like-grpc-framing": 0.15},
+	Gates: map[string]float64{"grpc-stream-after-stream-aborted-mid-message": 0.15, "non-grpc-after-grpc": 0.3, "grpc-after-non-grpc": 0.1, "interleaved-streams": 0.3, "plain-body": 0.15, "non-grpc-body-looks-like-grpc-framing": 0.15},
 }
 
 func TestStreamsOfOneFactory(t *testing.T) {
@@ -173,7 +229,7 @@ func TestStreamsOfOneFactory(t *testing.T) {
 	propStreams.Check(t, n)
 }
 
-// streamKinds are four fixed streams: two gRPC ones and two that are not.
+// streamKind: six fixed streams - two whole gRPC ones, two that are not gRPC, two gRPC ones torn down mid-message.
 func streamKind(k byte) Case {
 	two := []Msg{{N: 9, Seed: 3, Kind: "t"}, {N: 40, Seed: 4, Kind: "t", Z: true}}
 	switch k {
@@ -185,6 +241,10 @@ func streamKind(k byte) Case {
 	case 'J': // JSON-like text body
 		d := Dir{Msgs: []Msg{{N: 60, Seed: 5, Kind: "t"}}, Cuts: []int{2, 31}, End: "last", Plain: true}
 		return Case{CT: "application/json", C: d, S: d}
+	case 'A': // gRPC, reset in the middle: request inside a payload, response inside a prefix
+		return Case{CT: "application/grpc", C: Dir{Msgs: two, Cuts: []int{3, 16}, End: "last", AbortAt: 30, AbortHow: "rst"}, S: Dir{Msgs: two, End: "trailers", AbortAt: 16, AbortHow: "rst"}}
+	case 'E': // gRPC, END_STREAM on a truncated request message; the response is whole
+		return Case{CT: "application/grpc", HOrd: 2, C: Dir{Enc: "gzip", Msgs: two, Cuts: []int{9}, End: "last", AbortAt: 25, AbortHow: "end"}, S: Dir{Enc: "deflate", Msgs: two, End: "trailers"}}
 	default: // 'W': not gRPC, but the body looks like gRPC framing and a frame ends inside a prefix
 		d := Dir{Msgs: two, Cuts: []int{2, 16}, End: "last"}
 		return Case{CT: "application/grpc-web", C: d, S: d}
@@ -213,7 +273,7 @@ func enumStreamKinds(yield func(Conn) bool) {
 		if left == 0 {
 			return true
 		}
-		for _, k := range []byte("GZJW") {
+		for _, k := range []byte("GZJWAE") {
 			if !rec(prefix+string(k), left-1) {
 				return false
 			}
@@ -225,7 +285,7 @@ func enumStreamKinds(yield func(Conn) bool) {
 
 var propStreamKinds = &kit.Prop[Conn]{
 	ID: "C11", Name: "stream-kind-sequences",
-	Rule: "exhaustive: every sequence of 2 or 3 streams over four fixed kinds (gRPC identity, gRPC gzip, JSON text body, non-gRPC body that looks like gRPC framing) through one factory, one after the other and round-robin interleaved (160 histories). Non-trivial as for streams-of-one-factory.",
+	Rule: "exhaustive: every sequence of 2 or 3 streams over six fixed kinds (gRPC identity, gRPC gzip, JSON text body, non-gRPC body that looks like gRPC framing, gRPC reset in the middle of a message in both directions, gRPC with END_STREAM on a truncated message) through one factory, one after the other and round-robin interleaved (504 histories). Non-trivial as for streams-of-one-factory.",
 	Run:  runConn, NonTrivial: connNonTrivial, Classes: connClasses,
 }
 
